@@ -21,7 +21,7 @@ impl Scenario for C10 {
         "C10"
     }
     fn rule(&self) -> String {
-        "Family 'program' (seeded): negotiated channel_max from {1,2,3,8,255,2047,65534,65535} (client option x server Tune), programs of <= 60 operations out of open_channel(Some(id)) with id from {0, 1, max-1, max, max+1, 65535, an id that is open, an id that was freed, random}, open_channel(None), client close of a kept channel, server close of a kept channel, both at about the same time (the two Close frames may cross; the id is then re-used with or without a pause); all on the connection owner's thread (open_channel takes &mut Connection) while the broker answers with latencies. Reference model: the set of open ids => Ok(id) / UnavailableChannelId(id) / some free id in 1..=max / ExhaustedChannelIds. Oracle: every result equals the model's (for None: any id that is free), no two open channels share an id, never id 0, Channel.Open appears on exactly that id on the wire, no hang, no panic. Family 'wrap' (one long run per tier): channel_max = 65535 and > 65535 automatic allocations with immediate close, to cross the never-used-id counter's upper end. Non-trivial = the program exhausted the id space at least once or reused a freed id; distinct = hash of (channel_max, operation sequence).".to_string()
+        "Family 'program' (seeded): negotiated channel_max from {1,2,3,8,255,2047,65534,65535} (client option x server Tune), programs of <= 60 operations out of open_channel(Some(id)) with id from {0, 1, max-1, max, max+1, 65535, an id that is open, an id that was freed, random}, open_channel(None), client close of a kept channel, server close of a kept channel, the first Channel.Open of up to two ids refused by the server with Channel.Close (the call fails with the server's reason, the id stays free), both at about the same time (the two Close frames may cross; the id is then re-used with or without a pause); all on the connection owner's thread (open_channel takes &mut Connection) while the broker answers with latencies. Reference model: the set of open ids => Ok(id) / UnavailableChannelId(id) / some free id in 1..=max / ExhaustedChannelIds. Oracle: every result equals the model's (for None: any id that is free), no two open channels share an id, never id 0, Channel.Open appears on exactly that id on the wire, no hang, no panic. Family 'wrap' (one long run per tier): channel_max = 65535 and > 65535 automatic allocations with immediate close, to cross the never-used-id counter's upper end. Non-trivial = the program exhausted the id space at least once or reused a freed id; distinct = hash of (channel_max, operation sequence).".to_string()
     }
     fn plan(&self, thorough: bool, seed: u64) -> Vec<CaseSpec> {
         let mut v = plan_random("C10", "program", seed, if thorough { 120_000 } else { 8_000 });
@@ -43,6 +43,22 @@ impl Scenario for C10 {
         let mut broker = BrokerCfg::default();
         broker.tune = (s_cm, 131072, 0);
         broker.think_max_ns = if wrap { 0 } else { *pick(&mut cs, "think", &[0u64, 50_000]) };
+        // up to two ids whose first Channel.Open the server refuses (Channel.Close instead of OpenOk): the call
+        // fails with the server's reason and the id stays free
+        let mut armed: std::collections::BTreeMap<u16, String> = Default::default();
+        if !wrap {
+            for _ in 0..cs.choose("n_refused", 3) {
+                let id = (*pick(&mut cs, "refused_id", &[1u16, 2, 3, max])).min(max).max(1);
+                if armed.contains_key(&id) {
+                    continue;
+                }
+                let code = 400 + cs.choose("refused_code", 100) as u16;
+                let text = format!("refused-{}", id);
+                broker.script.push((crate::broker::Trigger::OnRequest { ch: id, nth: 0, instead: true }, crate::broker::Action::CloseChannel { ch: id, code, text: text.clone() }));
+                armed.insert(id, format!("ServerClosedChannel({},{},{})", id, code, text));
+            }
+        }
+        let n_armed = armed.len() as u64;
         let mut net = NetCfg::default();
         net.c2s_lat_min_ns = 1_000;
         net.c2s_lat_max_ns = if wrap { 1_000 } else { *pick(&mut cs, "c2s_lat", &[1_000u64, 100_000]) };
@@ -143,6 +159,7 @@ impl Scenario for C10 {
         let mut conn_iter = res.hist.conn.iter().filter(|c| matches!(c, ConnRec::OpenChannel { for_thread: 0, .. }));
         let mut opened_ids_in_order: Vec<u16> = Vec::new();
         let mut ever_freed: BTreeSet<u16> = BTreeSet::new();
+        let mut refused_seen = 0u64;
         for (i, op) in owner_ops.iter().enumerate() {
             match op {
                 OwnerOp::OpenChannel { id, keep } => {
@@ -156,7 +173,15 @@ impl Scenario for C10 {
                     let free = max as usize - model_open.len();
                     match id {
                         Some(x) => {
-                            let want: Result<u16, String> = if *x >= 1 && *x <= max && !model_open.contains(x) { Ok(*x) } else { Err(format!("UnavailableChannelId({})", x)) };
+                            let mut want: Result<u16, String> = if *x >= 1 && *x <= max && !model_open.contains(x) { Ok(*x) } else { Err(format!("UnavailableChannelId({})", x)) };
+                            if want.is_ok() {
+                                if let Some(e) = armed.remove(x) {
+                                    // the server refuses the first open of this id
+                                    want = Err(e);
+                                    refused_seen += 1;
+                                    opened_ids_in_order.push(*x);
+                                }
+                            }
                             if rec.1 != &want {
                                 let kind = if *x == 0 { "id-0" } else if want.is_ok() { "free-id-refused" } else { "unavailable-id-accepted" };
                                 rep.violate("open-explicit", kind, format!("channel_max {} open ids {:?}: op #{} open_channel(Some({})) returned {:?}, model says {:?}", max, model_open.iter().take(20).collect::<Vec<_>>(), i, x, rec.1, want));
@@ -174,6 +199,17 @@ impl Scenario for C10 {
                                     rep.violate("open-auto", "id-when-exhausted", format!("channel_max {}: all ids open, open_channel(None) returned {}", max, got));
                                     return rep;
                                 }
+                            }
+                            Err(e) if e.starts_with("ServerClosedChannel(") && armed.values().any(|v| v == e) => {
+                                // the id the client picked is one whose first open the server refuses
+                                let id = *armed.iter().find(|(_, v)| *v == e).unwrap().0;
+                                armed.remove(&id);
+                                refused_seen += 1;
+                                if id == 0 || id > max || model_open.contains(&id) {
+                                    rep.violate("open-auto", "refused-open-on-bad-id", format!("channel_max {}: open_channel(None) tried id {} (open ids {:?})", max, id, model_open.iter().take(20).collect::<Vec<_>>()));
+                                    return rep;
+                                }
+                                opened_ids_in_order.push(id);
                             }
                             Err(e) => {
                                 if free > 0 || e != "ExhaustedChannelIds" {
@@ -250,6 +286,8 @@ impl Scenario for C10 {
         rep.count("c10.opens", opened_ids_in_order.len() as u64);
         rep.count("c10.exhausted", exhausted_once as u64);
         rep.count("c10.reused_freed_id", reused as u64);
+        rep.count("c10.refusals_scripted", n_armed);
+        rep.count("c10.refused_opens_seen", refused_seen);
         rep.count("c10.crossing_closes", res.hist.notes.iter().filter(|n| n.starts_with("cross-closed")).count() as u64);
         rep.count("c10.crossing_closes_crossed", world.broker.sent.iter().enumerate().filter(|(i, s)| if let crate::broker::SentKind::ChannelClose { ch, .. } = &s.kind { world.broker.sent[i + 1..].iter().find_map(|x| match &x.kind { crate::broker::SentKind::Reply { ch: c, method, .. } if c == ch => Some(matches!(method, AMQPClass::Channel(Ch::CloseOk(_)))), _ => None }).unwrap_or(false) } else { false }).count() as u64);
         rep.nontrivial = exhausted_once || reused || wrap;
